@@ -186,7 +186,8 @@ OPS: t.Dict[str, t.Dict[str, t.Callable[[t.Any], t.Any]]] = {
 
 def _obs(v: t.Any) -> t.Any:
     if isinstance(v, list):
-        return [(A.src(m), [_obs(getattr(c, "value", None)) for c in getattr(m, "controls", [])]) for m in v]
+        # src() = the value; repr() = what the application sees when it prints / logs it (enum member names included)
+        return [(A.src(m), repr(m)[:2000], [_obs(getattr(c, "value", None)) for c in getattr(m, "controls", [])]) for m in v]
     if isinstance(v, (bytes, bytearray)):
         return bytes(v).hex()
     return repr(v)
